@@ -34,15 +34,15 @@ type prim struct {
 	signed bool
 	lo, hi int64
 	write  func(b *codec.Buffer, v int64, tag byte) error
-	read   func(r *codec.Reader, tag byte, init int64) (int64, error) // init: what the destination holds before the read
+	read   func(r *codec.Reader, tag byte, init int64, require bool) (int64, error) // init: what the destination holds before the read
 }
 
 var prims = []prim{
 	{"bool", false, 0, 1,
 		func(b *codec.Buffer, v int64, tag byte) error { return b.WriteBool(v != 0, tag) },
-		func(r *codec.Reader, tag byte, init int64) (int64, error) {
+		func(r *codec.Reader, tag byte, init int64, require bool) (int64, error) {
 			x := init&1 != 0
-			err := r.ReadBool(&x, tag, true)
+			err := r.ReadBool(&x, tag, require)
 			if x {
 				return 1, err
 			}
@@ -50,51 +50,51 @@ var prims = []prim{
 		}},
 	{"int8", true, -128, 127,
 		func(b *codec.Buffer, v int64, tag byte) error { return b.WriteInt8(int8(v), tag) },
-		func(r *codec.Reader, tag byte, init int64) (int64, error) {
+		func(r *codec.Reader, tag byte, init int64, require bool) (int64, error) {
 			x := int8(init)
-			err := r.ReadInt8(&x, tag, true)
+			err := r.ReadInt8(&x, tag, require)
 			return int64(x), err
 		}},
 	{"uint8", false, 0, 255,
 		func(b *codec.Buffer, v int64, tag byte) error { return b.WriteUint8(uint8(v), tag) },
-		func(r *codec.Reader, tag byte, init int64) (int64, error) {
+		func(r *codec.Reader, tag byte, init int64, require bool) (int64, error) {
 			x := uint8(init)
-			err := r.ReadUint8(&x, tag, true)
+			err := r.ReadUint8(&x, tag, require)
 			return int64(x), err
 		}},
 	{"int16", true, -32768, 32767,
 		func(b *codec.Buffer, v int64, tag byte) error { return b.WriteInt16(int16(v), tag) },
-		func(r *codec.Reader, tag byte, init int64) (int64, error) {
+		func(r *codec.Reader, tag byte, init int64, require bool) (int64, error) {
 			x := int16(init)
-			err := r.ReadInt16(&x, tag, true)
+			err := r.ReadInt16(&x, tag, require)
 			return int64(x), err
 		}},
 	{"uint16", false, 0, 65535,
 		func(b *codec.Buffer, v int64, tag byte) error { return b.WriteUint16(uint16(v), tag) },
-		func(r *codec.Reader, tag byte, init int64) (int64, error) {
+		func(r *codec.Reader, tag byte, init int64, require bool) (int64, error) {
 			x := uint16(init)
-			err := r.ReadUint16(&x, tag, true)
+			err := r.ReadUint16(&x, tag, require)
 			return int64(x), err
 		}},
 	{"int32", true, math.MinInt32, math.MaxInt32,
 		func(b *codec.Buffer, v int64, tag byte) error { return b.WriteInt32(int32(v), tag) },
-		func(r *codec.Reader, tag byte, init int64) (int64, error) {
+		func(r *codec.Reader, tag byte, init int64, require bool) (int64, error) {
 			x := int32(init)
-			err := r.ReadInt32(&x, tag, true)
+			err := r.ReadInt32(&x, tag, require)
 			return int64(x), err
 		}},
 	{"uint32", false, 0, math.MaxUint32,
 		func(b *codec.Buffer, v int64, tag byte) error { return b.WriteUint32(uint32(v), tag) },
-		func(r *codec.Reader, tag byte, init int64) (int64, error) {
+		func(r *codec.Reader, tag byte, init int64, require bool) (int64, error) {
 			x := uint32(init)
-			err := r.ReadUint32(&x, tag, true)
+			err := r.ReadUint32(&x, tag, require)
 			return int64(x), err
 		}},
 	{"int64", true, math.MinInt64, math.MaxInt64,
 		func(b *codec.Buffer, v int64, tag byte) error { return b.WriteInt64(v, tag) },
-		func(r *codec.Reader, tag byte, init int64) (int64, error) {
+		func(r *codec.Reader, tag byte, init int64, require bool) (int64, error) {
 			x := int64(init)
-			err := r.ReadInt64(&x, tag, true)
+			err := r.ReadInt64(&x, tag, require)
 			return x, err
 		}},
 }
@@ -132,7 +132,7 @@ func intCase(p *prim, v int64, tag int, buf *codec.Buffer) {
 	input := make([]byte, len(got))
 	copy(input, got)
 	r := codec.NewReader(input)
-	back, err := p.read(r, byte(tag), ^v) // the destination is in use: it holds something else
+	back, err := p.read(r, byte(tag), ^v, true) // the destination is in use: it holds something else
 	if err != nil {
 		report("read-error", p.name, tag, fmt.Sprint(v), got, want, err.Error())
 		return
@@ -147,7 +147,11 @@ func intCase(p *prim, v int64, tag int, buf *codec.Buffer) {
 		return
 	}
 	r2 := codec.NewReader(input)
-	_, _ = p.read(r2, byte(tag), 0)
+	// the same field read as an optional one (require=false): present, so the same value and position
+	if back2, err := p.read(r2, byte(tag), ^v, false); err != nil || back2 != v {
+		report("roundtrip-mismatch", p.name, tag, fmt.Sprint(v)+" read with require=false", got, want, fmt.Sprintf("read back %d err=%v", back2, err))
+		return
+	}
 	if off := offsetOf(r2, input); off != fieldLen {
 		report("offset", p.name, tag, fmt.Sprint(v), got, want, fmt.Sprintf("reader at offset %d after the field, field length %d", off, fieldLen))
 	}
@@ -161,7 +165,7 @@ func wideCase(p *prim, v int64, w, tag int) {
 	input := make([]byte, len(enc))
 	copy(input, enc)
 	r := codec.NewReader(input)
-	back, err := p.read(r, byte(tag), ^v)
+	back, err := p.read(r, byte(tag), ^v, tag%2 == 0)
 	val := fmt.Sprintf("%d as %s", v, refcodec.TypeName(w))
 	if err != nil {
 		report("widening-rejected", p.name, tag, val, enc, nil, err.Error())
@@ -304,7 +308,7 @@ func float32Case(bits uint32, tag int) {
 	if d != d {
 		d = 1
 	}
-	if err := r2.ReadFloat64(&d, byte(tag), true); err != nil {
+	if err := r2.ReadFloat64(&d, byte(tag), tag%2 == 0); err != nil {
 		report("widening-rejected", "float64", tag, val+" as Float", got, nil, err.Error())
 		return
 	}
@@ -393,8 +397,11 @@ func stringCase(s []byte, tag int) {
 		return
 	}
 	r2 := codec.NewReader(input)
-	var y string
-	_ = r2.ReadString(&y, byte(tag), true)
+	y := "~stale"
+	if err := r2.ReadString(&y, byte(tag), false); err != nil || y != string(s) {
+		report("roundtrip-mismatch", "string", tag, val+" read with require=false", nil, nil, fmt.Sprintf("read back len %d err=%v", len(y), err))
+		return
+	}
 	if off := offsetOf(r2, input); off != fieldLen {
 		report("offset", "string", tag, val, nil, nil, fmt.Sprintf("offset %d field length %d", off, fieldLen))
 	}
